@@ -64,18 +64,32 @@ where
     /// - The specified depth is either zero or greater than the depth of the Merkle tree
     ///   identified by the specified root.
     /// - Path to the node at the specified depth and index is not known to the advice provider.
+    /// - The length of the path returned by the advice provider is not equal to the specified
+    ///   depth.
     ///
     /// # Panics
     /// Panics if the computed root does not match the root provided via the stack.
     pub(super) fn op_mpverify(&mut self) -> Result<(), ExecutionError> {
         // read node value, depth, index and root value from the stack
         let node = [self.stack.get(3), self.stack.get(2), self.stack.get(1), self.stack.get(0)];
+        let depth = self.stack.get(4);
         let index = self.stack.get(5);
         let root = [self.stack.get(9), self.stack.get(8), self.stack.get(7), self.stack.get(6)];
 
         // get a Merkle path from the advice provider for the specified root and node index.
         // the path is expected to be of the specified depth.
         let path = self.host.borrow_mut().get_adv_merkle_path(self)?;
+
+        // the path is provided by the host non-deterministically; a path of any other length
+        // resolves to the root from a node at a different depth, and thus, it does not prove that
+        // `node` is in the tree at the specified depth and index.
+        if path.len() as u64 != depth.as_int() {
+            return Err(ExecutionError::MerklePathVerificationFailed {
+                value: node,
+                index,
+                root: root.into(),
+            });
+        }
 
         // use hasher to compute the Merkle root of the path
         let (addr, computed_root) = self.chiplets.build_merkle_root(node, &path, index);
